@@ -36,7 +36,7 @@ def case_strategy(tier):
             'skc': st.integers(0, 5),
             's2k': st.sampled_from(['iterated', 'salted', 'iterated']),
             'count': st.integers(0, 120),
-            'hdr': st.sampled_from(['new', 'old', 'partial', 'new5']),
+            'hdr': st.sampled_from(['new', 'old', 'partial', 'new5', 'indeterminate']),
             'fname': st.sampled_from(['', 'f.txt', '_CONSOLE', 'ünï.txt', 'x' * 255]),
             't': st.sampled_from([0, 1, 1234567890, (1 << 32) - 1]),
         }),
@@ -109,6 +109,15 @@ def eval_forward(case, rec):
                 cause = 'mixed-recipients-attributeerror'
             rec.finding('fwd/pgpy-decrypt', cause, case, '%s: %r' % (who, e))
             continue
+        # what decrypt() returns is a message again: its export follows the 11.3 grammar (no MDC or other container leftovers)
+        try:
+            dpk = wire.split_packets(bytes(dec))
+            if spec['comp'] and dpk and dpk[0].tag == 8:
+                dpk = wire.split_packets(grammar.decompress(dpk[0].body[0], dpk[0].body[1:]))
+            if any(p.tag not in (2, 4, 11) for p in dpk) or sum(1 for p in dpk if p.tag == 11) != 1:
+                rec.finding('fwd/pgpy-roundtrip', 'decrypted-message-exports-foreign-packets', case, 'tags %r' % [p.tag for p in dpk])
+        except (wire.WireError, Exception) as e:   # noqa
+            rec.finding('fwd/pgpy-roundtrip', 'decrypted-message-export-unreadable', case, repr(e))
         for f in ('message', 'filename', 'sensitive', 'format', 'mtime', 'compression', 'signatures'):
             if got[f] != expect[f]:
                 rec.finding('fwd/pgpy-roundtrip', f, case, '%s: %s %r != %r' % (who, f, str(got[f])[:80], str(expect[f])[:80]))
@@ -158,13 +167,16 @@ def _inner_packets(spec, b):
         pkt = wire.build_packet(11, lit, 'old')
     elif b['hdr'] == 'new5':
         pkt = wire.build_packet(11, lit, 'new', 5)
+    elif b['hdr'] == 'indeterminate':
+        # old format, length type 3: the packet extends to the end of the enclosing data (here: up to the MDC packet)
+        pkt = wire.build_packet(11, lit, 'old', 3)
     elif b['hdr'] == 'partial' and len(lit) >= 600:
         pkt = wire.build_packet(11, lit, 'new', chunks=[512, len(lit) - 512])
     else:
         pkt = wire.build_packet(11, lit)
     inner = pkt
     if spec['comp']:
-        inner = wire.build_packet(8, bytes([spec['comp']]) + grammar.compress(spec['comp'], pkt))
+        inner = wire.build_packet(8, bytes([spec['comp']]) + grammar.compress(spec['comp'], pkt), *(('old', 3) if b['hdr'] == 'indeterminate' else ()))
     return inner, fmt, body
 
 
@@ -259,7 +271,7 @@ def matrix(arg):
                                         'signers': ['ed25519-1'] if i % 3 == 0 else [], 'peek': i % 6 == 0},
                         'cipher': cipher, 'recips': [r], 'armored': bool(i % 2), 'supplied': bool(i % 3 == 0),
                         'bwd': {'container': 18 if i % 5 else 9, 'esk': bool(i % 2), 'skc': i, 's2k': 'iterated' if i % 3 else 'salted', 'count': 16 + i % 50,
-                                'hdr': ['new', 'old', 'partial', 'new5'][i % 4], 'fname': ['', 'f.txt', 'ünï.txt'][i % 3], 't': 1234567890}}
+                                'hdr': ['new', 'old', 'partial', 'new5', 'indeterminate'][i % 5], 'fname': ['', 'f.txt', 'ünï.txt'][i % 3], 't': 1234567890}}
                 evaluate(case, rec)
     return rec
 
